@@ -19,6 +19,7 @@ import (
 	"fmt"
 	"math/rand"
 	"os"
+	"runtime"
 	"sort"
 	"strings"
 	"sync"
@@ -176,6 +177,7 @@ type wcall struct {
 	Form           string // call / go / ctx / rt
 	Size           int
 	Fail           bool
+	Miss           bool // unknown method: the server rejects the request before any handler runs
 	ErrLen         int
 	Method         string // Echo / EchoCtx / EchoRet
 }
@@ -243,6 +245,7 @@ type StressSvc struct {
 	retain    bool
 	delayNs   int64
 	pushFirst int
+	hold      chan struct{} // ChatHold handlers start reading once this is closed
 }
 
 func newStressSvc() *StressSvc {
@@ -315,6 +318,27 @@ func (s *StressSvc) EchoRet(req *Blob) (*Blob, error) {
 	return &Blob{B: out}, nil
 }
 
+// Flip: same shape and same name length as Echo, another function (a request routed to the wrong handler shows in the reply)
+func (s *StressSvc) Flip(req *Blob, res *Blob) error {
+	out, err := s.do(req.B)
+	res.B = flip(out)
+	return err
+}
+
+// FlipCode: Flip for the code codec
+func (s *StressSvc) FlipCode(req *blobCode, res *blobCode) error {
+	out, err := s.do(req.B)
+	res.B = flip(out)
+	return err
+}
+
+func flip(b []byte) []byte {
+	for i := range b {
+		b[i] = ^b[i]
+	}
+	return b
+}
+
 // EchoCode: Echo for the code codec
 func (s *StressSvc) EchoCode(req *blobCode, res *blobCode) error {
 	out, err := s.do(req.B)
@@ -344,6 +368,7 @@ type StressCfg struct {
 	Seed       int64   `json:"seed"`
 	Sizes      []int   `json:"sizes"`
 	FailEvery  int     `json:"failevery"`
+	MissEvery  int     `json:"missevery"` // one call in MissEvery names a method the server does not have
 	Frag       int     `json:"frag"`
 	Readers    int     `json:"readers"`
 	Forms      string  `json:"forms"` // subset of "call,go,ctx,rt"
@@ -504,10 +529,22 @@ func runStress(c StressCfg) StressResult {
 		conns = append(conns, cn)
 	}
 	method := func(w wcall) string {
+		if w.Miss {
+			return "S.Nope"
+		}
 		if c.Codec == "code" {
+			if w.Method == "Flip" {
+				return "S.FlipCode"
+			}
 			return "S.EchoCode"
 		}
 		return "S." + w.Method
+	}
+	expected := func(w wcall, sent []byte) []byte {
+		if w.Method == "Flip" {
+			return flip(transform(sent))
+		}
+		return transform(sent)
 	}
 	newMsg := func(b []byte) (interface{}, func() []byte) {
 		if c.Codec == "code" {
@@ -537,7 +574,14 @@ func runStress(c StressCfg) StressResult {
 			o.sum = string(got)
 		}
 		// oracle
-		if w.Fail && w.Size >= hdrLen {
+		if w.Miss {
+			want := "can't find service S.Nope"
+			if err == nil {
+				fail("%+v: a call of a method the server does not have succeeded", w)
+			} else if err.Error() != want {
+				fail("%+v: unknown method: error text %q, want %q", w, trunc(err.Error()), want)
+			}
+		} else if w.Fail && w.Size >= hdrLen {
 			want := expectedErr(sent)
 			if err == nil {
 				fail("%+v: expected the handler's error, got success", w)
@@ -547,8 +591,8 @@ func runStress(c StressCfg) StressResult {
 		} else {
 			if err != nil {
 				fail("%+v: unexpected error %q", w, trunc(err.Error()))
-			} else if !bytes.Equal(got, transform(sent)) {
-				fail("%+v: reply is not F(own arguments): got %d bytes %x.., want %d bytes %x..", w, len(got), head(got), len(sent), head(transform(sent)))
+			} else if !bytes.Equal(got, expected(w, sent)) {
+				fail("%+v: reply is not what the named method computes from the call's own arguments: got %d bytes %x.., want %d bytes %x..", w, len(got), head(got), len(sent), head(expected(w, sent)))
 			}
 		}
 		omu.Lock()
@@ -565,7 +609,7 @@ func runStress(c StressCfg) StressResult {
 		}
 		omu.Unlock()
 	}
-	methods := []string{"Echo", "EchoCtx", "EchoRet"}
+	methods := []string{"Echo", "EchoCtx", "EchoRet", "Flip"}
 	var wg sync.WaitGroup
 	var sentMu sync.Mutex
 	sentCount := map[string]int{}
@@ -589,14 +633,19 @@ func runStress(c StressCfg) StressResult {
 						w.Fail = true
 						w.ErrLen = []int{1, 30, 127, 128, 129, 300, 16383, 16384, 20000}[r.Intn(9)]
 					}
+					if c.MissEvery > 0 && r.Intn(c.MissEvery) == 0 {
+						w.Miss, w.Fail = true, false
+					}
 					if c.CliPipe && c.Callers == 1 {
 						w.Form = "go" // order is promised to asynchronous calls of one goroutine
 					}
 					flush := r.Intn(3) == 0 // drawn for every call so that the workload does not depend on the configuration
 					sent := w.payload(c.Seed)
-					sentMu.Lock()
-					sentCount[string(sent)]++
-					sentMu.Unlock()
+					if !w.Miss {
+						sentMu.Lock()
+						sentCount[string(sent)]++
+						sentMu.Unlock()
+					}
 					args, _ := newMsg(append([]byte(nil), sent...))
 					reply, get := newMsg(nil)
 					switch w.Form {
@@ -916,23 +965,46 @@ func (s *StressSvc) Chat(st *SStream) error {
 	}
 }
 
+// ChatHold does not read until the scenario releases it (messages queue up unread in the stream), then echoes like Chat.
+func (s *StressSvc) ChatHold(st *SStream) error {
+	atomic.AddInt64(&chatStarted, 1)
+	defer atomic.AddInt64(&chatReturned, 1)
+	if s.hold != nil {
+		<-s.hold
+	}
+	for {
+		var m Blob
+		if err := st.Read(nil, &m); err != nil {
+			return err
+		}
+		if err := st.Write(&Blob{B: transform(m.B)}); err != nil {
+			return err
+		}
+	}
+}
+
 type StreamScenario struct {
-	Name      string `json:"name"`
-	Network   string `json:"network"`
-	Poll      bool   `json:"poll"`
-	Readers   int    `json:"readers"`
-	SrvDirect bool   `json:"srvdirect"`
-	SrvPipe   bool   `json:"srvpipe"`
-	CliDirect bool   `json:"clidirect"`
-	Streams   int    `json:"streams"`
-	PushFirst int    `json:"pushfirst"`
-	Msgs      int    `json:"msgs"`
-	Unary     int    `json:"unary"`
-	End       string `json:"end"` // close (client closes every stream) / drop (client drops the connection) / half (closes one, drops the rest)
-	Frag      int    `json:"frag"`
-	Seed      int64  `json:"seed"`
-	Codec     string `json:"codec"`  // "" (pb) / alias
-	Retain    bool   `json:"retain"` // both ends keep every stream message they read and compare after the traffic (C11)
+	Name       string `json:"name"`
+	Network    string `json:"network"`
+	Poll       bool   `json:"poll"`
+	Readers    int    `json:"readers"`
+	SrvDirect  bool   `json:"srvdirect"`
+	SrvPipe    bool   `json:"srvpipe"`
+	CliDirect  bool   `json:"clidirect"`
+	Streams    int    `json:"streams"`
+	PushFirst  int    `json:"pushfirst"`
+	Msgs       int    `json:"msgs"`
+	Unary      int    `json:"unary"`
+	End        string `json:"end"` // close (client closes every stream) / drop (client drops the connection) / half (closes one, drops the rest)
+	Frag       int    `json:"frag"`
+	Seed       int64  `json:"seed"`
+	Codec      string `json:"codec"`      // "" (pb) / alias
+	Retain     bool   `json:"retain"`     // both ends keep every stream message they read and compare after the traffic (C11)
+	SrvNoCopy  bool   `json:"srvnocopy"`  // Server.SetNoCopy(true): handlers that do not keep what they read
+	Hold       int    `json:"hold"`       // > 0: every stream's handler starts reading only after the client wrote its messages and made Hold unary calls
+	After      int    `json:"after"`      // > 0 (End = close): after the streams were closed, After concurrent callers and 2 pingers use the connection
+	RaceClose  int    `json:"raceclose"`  // > 0: that many extra streams are closed at the very moment a reader enters ReadMessage
+	BurstClose int    `json:"burstclose"` // > 0: that many extra streams get a burst of large messages and are closed at once, the close frame right behind the burst
 }
 
 func runStreamScenario(c StreamScenario) StressResult {
@@ -946,6 +1018,11 @@ func runStreamScenario(c StreamScenario) StressResult {
 	svc := newStressSvc()
 	svc.pushFirst = c.PushFirst
 	svc.retain = c.Retain
+	chatMethod := "S.Chat"
+	if c.Hold > 0 {
+		svc.hold = make(chan struct{})
+		chatMethod = "S.ChatHold"
+	}
 	var kmu sync.Mutex
 	var kept [][]byte
 	var keptSum []string
@@ -955,6 +1032,7 @@ func runStreamScenario(c StreamScenario) StressResult {
 	server.SetPoll(c.Poll)
 	server.SetPipelining(c.SrvPipe)
 	server.SetDirectIO(c.SrvDirect)
+	server.SetNoCopy(c.SrvNoCopy)
 	fs := &fragSocket{seed: c.Seed, maxChunk: c.Frag, readers: c.Readers}
 	addr := sockPath("ss")
 	opts := &rpc.Options{NewCodec: rpc.NewPBCodec}
@@ -986,17 +1064,70 @@ func runStreamScenario(c StreamScenario) StressResult {
 	}
 	started0, returned0 := atomic.LoadInt64(&chatStarted), atomic.LoadInt64(&chatReturned)
 	var wg sync.WaitGroup
+	var holdWritten sync.WaitGroup
+	if c.Hold > 0 {
+		holdWritten.Add(c.Streams)
+		go func() {
+			// once every stream has written its messages: unary traffic on the same connection, then let the handlers read
+			w := make(chan struct{})
+			go func() { holdWritten.Wait(); close(w) }()
+			select {
+			case <-w:
+			case <-time.After(10 * time.Second):
+			}
+			for u := 0; u < c.Hold; u++ {
+				wc := wcall{Conn: 8, Gor: u, Idx: u, Size: 40 + 3*u}
+				p := wc.payload(c.Seed)
+				var rep Blob
+				if err := conn.Call("S.Echo", &Blob{B: p}, &rep); err != nil {
+					fail("unary call while stream messages are queued: %v", err)
+				} else if !bytes.Equal(rep.B, transform(p)) {
+					fail("unary call while stream messages are queued got a foreign reply (%d bytes)", len(rep.B))
+				}
+			}
+			close(svc.hold)
+		}()
+	}
 	streams := make([]rpc.Stream, c.Streams)
 	for i := 0; i < c.Streams; i++ {
 		wg.Add(1)
 		go func(i int) {
 			defer wg.Done()
-			st, err := conn.NewStream("S.Chat")
+			st, err := conn.NewStream(chatMethod)
 			if err != nil {
 				fail("NewStream %d: %v", i, err)
 				return
 			}
 			streams[i] = st
+			if c.Hold > 0 {
+				// the handler is not reading yet: everything written now queues up in the server's stream
+				r := rand.New(rand.NewSource(c.Seed*131 + int64(i)))
+				var sent [][]byte
+				for k := 0; k < c.Msgs; k++ {
+					p := make([]byte, 1+r.Intn(300))
+					r.Read(p)
+					p[0] = byte(i)
+					sent = append(sent, p)
+					if err := st.WriteMessage(&Blob{B: append([]byte(nil), p...)}); err != nil {
+						fail("stream %d: WriteMessage %d: %v", i, k, err)
+						return
+					}
+				}
+				holdWritten.Done()
+				<-svc.hold
+				for k := range sent {
+					var m Blob
+					if err := readWithin(st, &m, 5*time.Second); err != nil {
+						fail("stream %d: echo of queued message %d never arrived: %v", i, k, err)
+						return
+					}
+					if !bytes.Equal(m.B, transform(sent[k])) {
+						fail("stream %d: a message that waited unread in the server's stream while other traffic flowed was not delivered as written: message %d, got %d bytes %x want %x", i, k, len(m.B), head(m.B), head(transform(sent[k])))
+						return
+					}
+				}
+				return
+			}
 			r := rand.New(rand.NewSource(c.Seed*131 + int64(i)))
 			var sent [][]byte
 			// the handler's first pushes, in order
@@ -1174,6 +1305,116 @@ func runStreamScenario(c StreamScenario) StressResult {
 	}
 	if got := atomic.LoadInt64(&chatReturned) - returned0; got < nstarted {
 		fail("%d of %d stream handlers still blocked 3 s after their streams were closed / the connection was dropped (server mode poll=%v)", nstarted-got, nstarted, c.Poll)
+	}
+	if c.End == "close" && c.BurstClose > 0 {
+		big := make([]byte, 8192)
+		for i := 0; i < c.BurstClose && len(res.Failures) == 0; i++ {
+			st, err := conn.NewStream("S.Chat")
+			if err != nil {
+				fail("burst-close stream %d: NewStream: %v", i, err)
+				break
+			}
+			for k := 0; k < 120; k++ {
+				big[0] = byte(k)
+				if err := st.WriteMessage(&Blob{B: big}); err != nil {
+					fail("burst-close stream %d: WriteMessage %d: %v", i, k, err)
+					break
+				}
+			}
+			cl := make(chan error, 1)
+			go func() { cl <- st.Close() }()
+			select {
+			case <-cl:
+			case <-time.After(5 * time.Second):
+				fail("burst-close stream %d: Close did not return within 5 s", i)
+			}
+			wc := wcall{Conn: 5, Gor: i, Idx: i, Size: 64}
+			p := wc.payload(c.Seed)
+			var rep Blob
+			if err := conn.Call("S.Echo", &Blob{B: p}, &rep); err != nil {
+				fail("burst-close stream %d: a call on the same connection after the close failed: %v", i, err)
+			} else if !bytes.Equal(rep.B, transform(p)) {
+				fail("burst-close stream %d: the call after the close got a foreign reply", i)
+			}
+		}
+	}
+	if c.End == "close" && c.RaceClose > 0 {
+		for i := 0; i < c.RaceClose; i++ {
+			st, err := conn.NewStream("S.Chat")
+			if err != nil {
+				fail("race-close stream %d: NewStream: %v", i, err)
+				break
+			}
+			rd := make(chan error, 1)
+			var ready int32
+			go func() {
+				var m Blob
+				atomic.StoreInt32(&ready, 1)
+				rd <- st.ReadMessage(nil, &m)
+			}()
+			for atomic.LoadInt32(&ready) == 0 { // Close lands while the reader is on its way into ReadMessage
+				if i%4 == 3 {
+					runtime.Gosched()
+				}
+			}
+			st.Close()
+			select {
+			case err := <-rd:
+				if err != rpc.ErrStreamShutdown {
+					fail("race-close stream %d: ReadMessage returned %v, want ErrStreamShutdown", i, err)
+				}
+			case <-time.After(3 * time.Second):
+				fail("race-close stream %d: a ReadMessage entered at the moment of Close is still blocked 3 s after Close returned", i)
+			}
+			if len(res.Failures) > 0 {
+				break
+			}
+		}
+	}
+	if c.End == "close" && c.After > 0 {
+		// the streams are closed: ordinary traffic on the connection must be undisturbed by what they left behind
+		var awg sync.WaitGroup
+		stopPing := make(chan struct{})
+		for pg := 0; pg < 2; pg++ {
+			awg.Add(1)
+			go func() {
+				defer awg.Done()
+				for {
+					select {
+					case <-stopPing:
+						return
+					default:
+					}
+					if err := conn.Ping(); err != nil {
+						fail("ping after the streams were closed: %v", err)
+						return
+					}
+				}
+			}()
+		}
+		var cwg sync.WaitGroup
+		for g := 0; g < c.After; g++ {
+			cwg.Add(1)
+			go func(g int) {
+				defer cwg.Done()
+				for k := 0; k < 60; k++ {
+					wc := wcall{Conn: 6, Gor: g, Idx: k, Size: 24 + g + k}
+					p := wc.payload(c.Seed)
+					var rep Blob
+					if err := conn.Call("S.Echo", &Blob{B: p}, &rep); err != nil {
+						fail("call after the streams were closed: %v", err)
+						return
+					} else if !bytes.Equal(rep.B, transform(p)) {
+						fail("call after the streams were closed: reply is not F(own arguments): got %d bytes %x, want %x", len(rep.B), head(rep.B), head(transform(p)))
+						return
+					}
+				}
+			}(g)
+		}
+		cwg.Wait()
+		close(stopPing)
+		awg.Wait()
+		res.Calls += c.After * 60
 	}
 	if c.End == "close" {
 		conn.Close()
